@@ -443,7 +443,7 @@ func (ps *peerSt) hasAF(i int8) bool {
 // have/bitfield/have-all/unchoke (torrent_messagehandler.go:139,165,177,197), after a completed piece (:110),
 // from startPieceDownloaders (torrent_start.go:155-159; after choke :225, snub torrent_peer.go:215, hash failure
 // torrent_write.go:36, web-seed error torrent_webseed.go:20) and — because session.ram is always set
-// (session.go:177) — at any later time through ramNotifyC (torrent_run.go:54). Hence: any connected peer, any
+// (session.go:177) — at any later time through ramNotifyC (torrent_run.go:53-54). Hence: any connected peer, any
 // time; a peer that is already downloading included (have on a busy peer), for which PickFor must return nil.
 func (x *ctx) startSinglePieceDownloader(w *World, p int8) {
 	pe := x.peers[p]
@@ -545,11 +545,12 @@ func (x *ctx) startSinglePieceDownloader(w *World, p int8) {
 	}
 	// sequential law
 	if x.c.Seq && !ps.Choking && !bad {
-		// "taken": complete, being written, being downloaded from a peer, or reserved for a web seed
+		// "taken": complete, being written, reserved for a web seed, or being downloaded from a peer by a download
+		// that is not stalled (a stalled edge piece may be re-requested first: edges come before the rest)
 		taken := true
 		for e := 0; e < n; e++ {
 			if x.edge[e] && w.active(e) && owner[e] < 0 {
-				if c2, _ := w.downloaders(int8(e)); c2 == 0 {
+				if c2, st2 := w.downloaders(int8(e)); c2 == 0 || st2 {
 					taken = false
 				}
 			}
@@ -581,6 +582,8 @@ func (x *ctx) startSinglePieceDownloader(w *World, p int8) {
 					class = "webseed-active"
 				case af:
 					class = "allowed-fast-first"
+				case cnt >= 1:
+					class = "duplicate-first"
 				}
 				x.fail("sequential.not-lowest."+class, "%s to an unchoking peer in sequential mode, all file-edge pieces are taken, but the lower-indexed piece %d is eligible too (peer has it, not done/writing, no peer downloads it, not reserved for a web seed)", who, lowest)
 				bad = true
@@ -628,7 +631,7 @@ func (x *ctx) closePeer(w *World, p int8) {
 
 // startPieceDownloaderForWebseed: torrent_start.go:162-195. Called only for a source without a downloader
 // (startPieceDownloaders :148; after WebseedStopAt closed it, torrent_write.go:56-62; after the downloader
-// finished, torrent_webseed.go:49-51,87-89; on retry after an error, torrent_run.go:67-68).
+// finished, torrent_webseed.go:38-52,79-90; on retry after an error, torrent_run.go:67-68).
 // Returns the number of outcomes the randomised range choice can have in this state, and the outcome.
 func (x *ctx) startPieceDownloaderForWebseed(w *World, s int8) (nd int, out int8) {
 	src := x.srcs[s]
@@ -782,7 +785,7 @@ func (x *ctx) apply(w *World, o op, live bool) (nd int, out int8, panicked bool)
 			x.pp.HandleChoke(x.peers[p], uint32(ps.Dl))
 		}
 	case opSnub:
-		// torrent_peer.go:201-216: only with an open piece downloader and only if the peer is not choking
+		// torrent_peer.go:203-215: only with an open piece downloader and only if the peer is not choking
 		ps := &w.Peers[p]
 		x.peers[p].Snubbed = true
 		ps.DlSnub = true
@@ -803,7 +806,7 @@ func (x *ctx) apply(w *World, o op, live bool) (nd int, out int8, panicked bool)
 		w.Writing = -1
 		switch {
 		case w.Writer >= writerSrc0 && w.Writer != writerGone:
-			x.closeWebseedDownloader(w, w.Writer-writerSrc0) // disableSource: torrent_webseed.go:95-106
+			x.closeWebseedDownloader(w, w.Writer-writerSrc0) // disableSource: torrent_webseed.go:92-106
 		case w.Writer >= 0 && w.Writer != writerGone:
 			x.closePeer(w, w.Writer)
 		}
@@ -866,7 +869,7 @@ func (x *ctx) apply(w *World, o op, live bool) (nd int, out int8, panicked bool)
 			ss.Phase = phPending
 		}
 	case opWsDeliver:
-		// torrent_webseed.go:11-92; webseedPieceResultC is suspended while a piece is being written (:73-74)
+		// torrent_webseed.go:11-92; webseedPieceResultC is suspended while a piece is being written (:73-74, torrent_messagehandler.go:113-114)
 		ss := &w.Src[p]
 		d := x.srcs[p].Downloader
 		idx := int8(d.ReadCurrent())
